@@ -109,6 +109,35 @@ func runC18(x *X) {
 		x.State(s1 + "\x00" + s2)
 		x.Nontrivial(fmt.Sprint(how, s1, "\x00", s2))
 	})
+	x.Explore("very-long-lines", ExploreOpts{ShardDepth: 1, Bound: "strings with one line of 65535 / 65536 / 65537 / 70000 / 200000 bytes (ASCII or two-byte runes), alone, first, in the middle or last among short lines: longest-line measures and cell size"}, func(c *Chooser) {
+		n := []int{65535, 65536, 65537, 70000, 200000}[c.Choose(5)]
+		wide := c.Bool()
+		pos := c.Choose(4)
+		long := strings.Repeat("x", n)
+		cells := n
+		if wide {
+			long = strings.Repeat("é", n/2)
+			cells = n / 2
+		}
+		s := []string{long, long + "\nshort", "a\n" + long + "\nbb", "short\n" + long}[pos]
+		c.Logf("a line of %d bytes (two-byte runes: %v) at position %d", len(long), wide, pos)
+		x.Transition(1)
+		x.Nontrivial(fmt.Sprint(n, wide, pos))
+		tags := []string{"very_long_line", fmt.Sprintf("line_bytes:%d", len(long))}
+		x.Clause("C18.longest")
+		if g := length.LongestLineCells(s); g != cells {
+			x.Fail("C18.longest", tags, "LongestLineCells = %d, the longest line is %d cells wide", g, cells)
+		}
+		if g := length.LongestLineBytes(s); g != len(long) {
+			x.Fail("C18.longest", tags, "LongestLineBytes = %d, the longest line has %d bytes", g, len(long))
+		}
+		x.Clause("C18.cell")
+		cell := tabular.NewCell(s)
+		wantLines := strings.Count(s, "\n") + 1
+		if cell.TerminalCellWidth() != cells || cell.Height() != wantLines || len(cell.Lines()) != wantLines {
+			x.Fail("C18.cell", tags, "NewCell: width %d height %d lines %d, want width %d and %d lines", cell.TerminalCellWidth(), cell.Height(), len(cell.Lines()), cells, wantLines)
+		}
+	})
 	// padding of every size: a column whose widest line is W cells wide, above/below lines of 0, 1 and W-1 cells
 	maxW := x.Pick(300, 1100)
 	x.Explore("padding-widths", ExploreOpts{ShardDepth: 1, Bound: fmt.Sprintf("every column width W in 1..%d (ASCII, and double-width runes for even W) with cells of width 0, 1 and W-1 and a two-line cell in the same column; header or body position", maxW)}, func(c *Chooser) {
